@@ -3,10 +3,20 @@ from props import standard_check
 
 
 def check_C14(tier, seed):
+    import os
+    import sys
+    sys.path.insert(0, os.path.join(os.path.dirname(os.path.abspath(__file__)), "..", "translators"))
+    import segment_map
+    import driver as D
+
+    def t1():
+        segment_map.generate(D.REPO, os.path.join(D.COQ, "theories", "Gen", "SegmentMap.v"))
+    t1.__name__ = "T1 segment_map (partition_segment.rs, codec.rs)"
     return standard_check(
-        "C14", tier, seed, "files", ["c14_envelope", "c14_segments", "c14_catalogue", "c14_wal"],
+        "C14", tier, seed, "files", ["c14_envelope", "c14_segments", "c14_catalogue", "c14_wal"], translators=[t1],
         trusted=["sha2 crate as the digest (supplied to the model as an oracle leaf; theorems quantify over any digest function with 32-byte output)",
-                 "capnp packed serialisation is not modelled: partition-segment, catalogue and WAL-segment round trips are checked by the object-level oracle suites only"],
+                 "capnp packed serialisation is not modelled: partition-segment, catalogue and WAL-segment round trips are checked by the object-level oracle suites only",
+                 "translator T1 (translators/segment_map.py): codec-op / data-section / encoding-type match arms of PartitionSegment::{serialize,deserialize}"],
         assumptions=["bytes are < 256", "payload length <= 2^64 - 49"],
         rule="envelope: for each payload (lengths 0, 1, small, medium, large) EVERY single-bit flip, EVERY truncation length, suffixes of 6 lengths, plus foreign blobs in 4 classes; "
              "objects: seeded columns of 14 codec/data-section shapes, catalogues of 0-4 tables, event buffers over all 7 column representations; "
@@ -29,7 +39,9 @@ CLAIMED = {
     "C14": dict(
         text="Machine-checked proof (Coq) over a byte-level model of the versioned, checksummed envelope: load(store p) = p; whatever load accepts is exactly "
              "what store writes for the returned payload (so any bit flip, truncation, extension or foreign blob is rejected unless it is itself a genuine file, "
-             "with sha256 collisions as an explicit disjunct; truncations/extensions rejected by a pure length argument). The model is tied to the Rust writer by "
+             "with sha256 collisions as an explicit disjunct; truncations/extensions rejected by a pure length argument); and, over maps REGENERATED from the source on "
+             "every run, that the hand-enumerated codec-op, data-section and encoding-type arms of the partition-segment serialiser and deserialiser are mutually inverse "
+             "and total. The envelope model is tied to the Rust writer by "
              "an exhaustive corruption sweep (every bit, every truncation) compared case by case with the extracted model; partition segments, catalogues and WAL "
              "segments are round-tripped through the real capnp codecs for every codec-op / data-section / event-buffer arm (oracle, capnp not modelled).",
         note="Trusted: Coq kernel, extraction, harness glue, sha2 and capnp crates. The object-level (capnp) round trips are differential testing, not proof.",
